@@ -415,7 +415,8 @@ fn cli_loop(doc: &[u8], prog: &str, indent: usize) -> String {
     }
     let (rc3, r_out, r_err) = run_cli(&["yq", "-o", "json", "-I", "0", "."], &y_out);
     let want = String::from_utf8_lossy(&j_out).trim_end().to_string();
-    let root_scalar = !want.contains('\n') && want.starts_with('"');
+    // `-o json -I 0` prints one result per line: some result is a bare string scalar
+    let root_scalar = want.split('\n').any(|l| l.starts_with('"'));
     let tag = if root_scalar { "root-scalar-raw" } else { "value" };
     if rc3 != 0 {
         return format!(
@@ -1064,7 +1065,7 @@ fn gen_src_scalar(r: &mut Rng) -> String {
 pub fn gen(tier: Tier, r: &mut Rng, emit: &mut dyn FnMut(String)) {
     let quick = tier == Tier::Quick;
     // ---- leg 1: decision functions on adversarial strings
-    let n_str = if quick { 2000 } else { 60_000 };
+    let n_str = if quick { 2000 } else { 20_000 };
     let mut strings: Vec<String> = Vec::new();
     // deterministic boundary set first
     for i in INDICATORS {
@@ -1114,14 +1115,14 @@ pub fn gen(tier: Tier, r: &mut Rng, emit: &mut dyn FnMut(String)) {
         }
     }
     // ---- leg 1b: streaming emitter in process
-    let n_ssv = if quick { 600 } else { 20_000 };
+    let n_ssv = if quick { 600 } else { 8_000 };
     for _ in 0..n_ssv {
         let doc = gen_src_scalar(r);
         if let Some((st, dec)) = src_scalar(doc.as_bytes()) {
             emit(format!("C15 ssv {} {st} {}", hx(&doc), hx(&dec)));
         }
     }
-    let n_docs = if quick { 1200 } else { 40_000 };
+    let n_docs = if quick { 1200 } else { 15_000 };
     let mut docs: Vec<String> = Vec::new();
     let mut tries = 0;
     while docs.len() < n_docs && tries < n_docs * 4 {
@@ -1135,7 +1136,7 @@ pub fn gen(tier: Tier, r: &mut Rng, emit: &mut dyn FnMut(String)) {
         emit(format!("C15 sloop {} {}", hx(d), r.below(9)));
     }
     // ---- leg 2: CLI end to end (batched over worker threads, results cached for `exec`)
-    let n_cli = if quick { 450 } else { 15_000 };
+    let n_cli = if quick { 450 } else { 4_000 };
     let mut reqs: Vec<String> = Vec::new();
     for i in 0..n_cli {
         let d = &docs[r.usize_below(docs.len().max(1)) % docs.len().max(1)];
